@@ -1,5 +1,6 @@
 import QuillModel.Props.C17Removal
 import QuillModel.Backend.ParkedInv
+import QuillModel.Backend.ParkedInv2
 /-!
 # C17 — a caller parked by `remove_logger_blocking` has its removal request in the accepted history
 
@@ -86,6 +87,33 @@ theorem C17_remove_blocking_contract (s0 : BSt) (h0 : RemovalFresh s0) (pre post
   rw [hrl] at this
   exact ⟨lg, hlg, this⟩
 
+/-- **Every call parked on a flag has its request record in the accepted history — state invariant.** For every schedule
+    `ops` (frontend operations, polls with arbitrary injections, exit) from a state without actors: in the state reached, for
+    every live actor `a` parked on `Pend.flag f` there is a context `i` and a record `st` in its accepted history that carries
+    the flag `f` (`Kind.flush f` or `Kind.removal f`) and was issued by `a`. With `C06_flag_numbers_unique` this record is the
+    only one carrying `f`: the caller is parked by `remove_logger_blocking` iff that record is a `Kind.removal f`, and
+    `C17_remove_blocking_returns_after_erase` applies to it. -/
+theorem C17_parked_flag_has_record (s0 : BSt) (h0 : s0.actors = []) (ops : List Op) (a f : Nat)
+    (hp : pendOf (runOps s0 ops) a = some (.flag f)) :
+    ∃ i, ∃ st ∈ ((runOps s0 ops).th i).accepted, flagOf st = some f ∧ st.actor = a := by
+  have hL := (LK.start h0).run ops
+  obtain ⟨x, hx, hxp⟩ := pendOf_some hp
+  exact (hL.pend a x hx).1 f hxp
+
+/-- the invariant composed with the removal theorem: in every reachable state, a caller parked on a flag whose record is a
+    removal request and whose `resume` answers "done" finds the logger erased and everything logged through it popped -/
+theorem C17_parked_removal_contract (s0 : BSt) (h0 : RemovalFresh s0) (ops : List Op) (a f : Nat)
+    (hp : pendOf (runOps s0 ops) a = some (.flag f)) (hdone : (resume (runOps s0 ops) a).2 = "done") :
+    ∃ i, ∃ st ∈ ((runOps s0 ops).th i).accepted, flagOf st = some f ∧ st.actor = a ∧
+      (st.kind = .removal f →
+        ((runOps s0 ops).lgOf st.lg).erased = true ∧
+        (∀ j r, r ∈ ((runOps s0 ops).th j).accepted → r.lg = st.lg → r ∈ ((runOps s0 ops).th j).popped)) := by
+  obtain ⟨i, st, hst, hf, ha⟩ := C17_parked_flag_has_record s0 h0.startF.start.actors ops a f hp
+  refine ⟨i, st, hst, hf, ha, fun hk => ?_⟩
+  have hp' : ((runOps s0 ops).actor a).map (·.pend) = some (Pend.flag f) := hp
+  have := C17_remove_blocking_returns_after_erase s0 h0 ops a f i st hp' hst hk hdone
+  exact ⟨this.1, this.2.1⟩
+
 /-! ### non-vacuity -/
 
 /-- the run of `Props/C17Removal.lean`: thread 0 logs through logger 0 and calls `remove_logger_blocking(0)`; meanwhile thread
@@ -101,8 +129,10 @@ example :
     (applyOp s (.front (.removeBlocking 0 0))).2 = "parked:sleep" ∧
     parkedOn (applyOp s (.front (.removeBlocking 0 0))).1 0 = true ∧
     parkedOn s2 0 = true ∧ (resume s2 0).2 = "done" ∧ loggerOf s 0 = some 0 ∧ (s2.lgOf 0).erased = true ∧
-    (s2.th 0).accepted.map (·.kind) = [.log, .removal 0] ∧ (s2.th 0).popped.length = 2 := by
+    (s2.th 0).accepted.map (·.kind) = [.log, .removal 0] ∧ (s2.th 0).popped.length = 2 ∧
+    -- `C17_parked_flag_has_record`: no actors at the start, and the record of the parked caller is there
+    c17Init.actors = [] ∧ (s2.th 0).accepted.map (fun st => (flagOf st, st.actor)) = [(none, 0), (some 0, 0)] := by
   refine ⟨by decide +kernel, by decide +kernel, by decide +kernel, by decide +kernel, by decide +kernel,
-    by decide +kernel, by decide +kernel, by decide +kernel⟩
+    by decide +kernel, by decide +kernel, by decide +kernel, rfl, by decide +kernel⟩
 
 end Backend
